@@ -13,7 +13,7 @@
    Recursion: `rec_free h` = no body calls self.step() again.  For hierarchies whose bodies do
    (l_rec := Some k: `if self.steps < k: self.step()`), C05_recursive_calls_each_count_once is the statement. *)
 From Coq Require Import ZArith List Bool.
-From Mesa Require Import Generated.Tables Model.StepCounter Proofs.StepCounterProofs.
+From Mesa Require Import Generated.Tables Model.C3 Model.StepCounter Proofs.StepCounterProofs.
 Import ListNotations.
 Open Scope Z_scope.
 
@@ -161,6 +161,17 @@ Theorem C05_recursive_fixed_arity : forall h mid i l st args,
 Proof. exact wrapped_step_fixed_arity. Qed.
 Print Assumptions C05_recursive_fixed_arity.
 
+(* Multiple inheritance: C3.  Model/C3.v is the merge algorithm of CPython's type.mro; NewInstance in run_case refuses
+   (observation [-3]) a class whose declared base lists do not linearise to the order of its levels.  For the
+   hierarchies the generator builds - every class lists the next level first and then any subset of the later
+   ones, in ascending order - the C3 linearisation IS the level order: checked here for all 1 + 1 + 1 + 2 + 8 + 64 +
+   1024 + 32768 such hierarchies of depth <= 7 (the generator stops at 6), so the MRO lists the model is given are not
+   taken on trust from the generator.  (The driver additionally compares CPython's __mro__.) *)
+Theorem C05_generated_mro_is_c3 :
+  forallb (fun n => forallb mro_is_level_order (family n)) [0; 1; 2; 3; 4; 5; 6; 7]%nat = true.
+Proof. vm_compute. exact eq_refl. Qed.
+Print Assumptions C05_generated_mro_is_c3.
+
 (* T1: the shape of the source the model transcribes, re-read from the source on this run:
    __init__ binds _user_step to self.step and then shadows step on the instance; _wrapped_step is
    `self.steps += 1` followed by `self._user_step( *args, **kwargs)`; run_model is `while self.running: self.step()`;
@@ -202,7 +213,7 @@ Example C05_example_run_model :
 Proof. vm_compute. reflexivity. Qed.
 
 Example C05_example_interleaving :
-  let w := final (init [ex_h; ex_loop]) [NewInstance 0; NewInstance 1; NewInstance 1] in
+  let w := final (init [ex_h; ex_loop] []) [NewInstance 0; NewInstance 1; NewInstance 1] in
   let ops := [Step 0 [1; 2]; Step 1 []; Step 2 [4]; Step 0 [3]; SetRunning 1 false; Step 1 [9; 9]; Step 0 [5; 6]] in
   map (fun x => steps (i_st x)) (w_insts (final w ops)) = [3; 2; 1] /\
   forallb (fun o => negb (is_run o)) ops = true.
@@ -235,3 +246,13 @@ Example C05_example_fixed_arity_recursion :
      [ {| e_inst := 0; e_lvl := 0; e_seen := 4; e_run := true; e_args := [7; 8] |};
        {| e_inst := 0; e_lvl := 1; e_seen := 4; e_run := true; e_args := [7; 8] |} ], ErrType).
 Proof. vm_compute. split; reflexivity. Qed.
+
+(* C3 on a diamond with both bases defining step, on a hierarchy whose level order is NOT its MRO, and on an
+   inconsistent one (CPython: "Cannot create a consistent method resolution order") *)
+Example C05_example_c3 :
+  mro_of_first [[1; 2]; [3]; [3]; []] = Some [0; 1; 2; 3] /\
+  mro_of_first [[2; 1]; [3]; [3]; []] = Some [0; 2; 1; 3] /\ mro_is_level_order [[2; 1]; [3]; [3]; []] = false /\
+  mro_of_first [[2; 1]; [2]; []] = None /\
+  length (family 6) = 1024%nat /\
+  fst (step (init [ex_h] [[[2; 1]; [3]; [3]; []]]) (NewInstance 0)) = init [ex_h] [[[2; 1]; [3]; [3]; []]].
+Proof. vm_compute. repeat split; reflexivity. Qed.
